@@ -81,6 +81,16 @@ def h_api(env):
         env.check("call-rejects-undefined", False)
     except ValueError:
         env.check("call-rejects-undefined", True)
+    # the same look-ups with an *instance* as the argument: the stand-in of the undefined number, and a pickled copy of a member
+    try:
+        E(x)
+        env.check("call-rejects-undefined-stand-in", False)
+    except ValueError:
+        env.check("call-rejects-undefined-stand-in", True)
+    for name, v in zip(NAMES, numbers):
+        args, kw = E[name].__getnewargs_ex__()
+        c = E.__new__(E, *args, **kw)  # what unpickling builds: a copy that is not the canonical object
+        env.check("lookup-by-a-copy-returns-the-canonical-member", E(c) is E[name])
     try:
         E.from_string("NOPE")
         env.check("from_string-rejects-unknown-name", False)
